@@ -103,6 +103,25 @@ def run(ctx):
         f0, z0 = complex(np.ravel(v1[0])[0]), complex(np.ravel(v1[1])[0])
         terms.append("(probe_ok %s %s %s %s)" % (prog.c_ops(p), prog.c_sm(snaps[0]), core.qi(f0), core.qi(z0)))
         meta.append(("nest", p))
+    # (a') a '*' group reused as the left operand of two products must not change
+    for i in range(15 if quick else 300):
+        p = prog.gen_program(ctx.rng, maxlen=4, init_p=0.0, global_nmax_p=0.0, kinds=["scalar", "matrix", "shift", "spoil"])
+        if len(p["ops"]) < 4:
+            continue
+        try:
+            a, b, c, d = [prog.build_op(o) for o in p["ops"][:4]]
+            block = a * b
+            g1 = block * c
+            g2 = block * d
+            v1 = epg.simulate([g1, g2, epg.ADC], probe=["F0", "Z0"], init=epg.StateMatrix(density=p["pd"]))
+            v2 = epg.simulate([a, b, c, a, b, d, epg.ADC], probe=["F0", "Z0"], init=epg.StateMatrix(density=p["pd"]))
+        except Exception as e:
+            ctx.report("reused '*' group raised %s: %s" % (type(e).__name__, str(e)[:200]), {"case": p}, found_input=True, signature={"raises": type(e).__name__, "site": "*-reuse"})
+            continue
+        ctx.count(("reuse", repr(p)), nontrivial=True)
+        if len(block) != 2 or len(g1) != 3 or len(g2) != 3 or not np.array_equal(np.asarray(v1), np.asarray(v2)):
+            ctx.report("a '*' group reused as left operand changed: len(block)=%d, len(block*c)=%d, len(block*d)=%d" % (len(block), len(g1), len(g2)),
+                       {"case": p}, found_input=True, signature={"why": "group-reuse"})
     # (b) '@' chains on synthetic operators: combined arrays vs the model, and effect vs sequential application
     for i in range(60 if quick else 2000):
         n = ctx.rng.randint(2, 4)
@@ -145,7 +164,7 @@ def run(ctx):
             nb += 1
             ctx.report("model and implementation disagree (%s)" % kind, {"kind": kind, "object": repr(obj)[:2000], "theorem_or_correspondence": "C10 correspondence Model/Combine.v vs epgpy"}, found_input=False)
     # (c) '@' with derivatives: effect incl. partials vs sequential application (implementation-side oracle)
-    partial_oracle(ctx, 40 if quick else 1500)
+    partial_oracle(ctx, 100 if quick else 3000)
     # (d) real operators: shape / duration / name of combined operators
     real_chains(ctx, 10 if quick else 300)
     ctx.cov["trusted_base"] += ["hand-written model Model/Combine.v tied to opscalar/opmatrix _combine by exact comparison of the combined arrays",
@@ -163,8 +182,19 @@ def same_partials(a, b):
 def partial_oracle(ctx, n):
     import epgpy as epg
     for i in range(n):
-        o1 = dprog.gen_dop(ctx.rng, with_order2=(i % 3 == 0))
-        o2 = dprog.gen_dop(ctx.rng, with_order2=(i % 3 == 0))
+        w2 = (i % 2 == 0)
+        o1 = dprog.gen_dop(ctx.rng, with_order2=w2)
+        o2 = dprog.gen_dop(ctx.rng, with_order2=w2)
+        if w2 and i % 4 == 0:
+            # left operand with a recovery term, right operand a matrix with explicit second-order pairs
+            if o1["lin"]["arr0"] is None:
+                o1["lin"] = dprog.gen_lin(ctx.rng, o1["kind"], has0=True)
+            o1["order1_arg"], o1["order1"], o1["order2_arg"], o1["order2"] = None, {}, None, {}
+            o2 = dprog.gen_dop(ctx.rng, with_order2=True)
+            while o2["kind"] != "matrix" or not o2["order1"] or isinstance(o2["order1_arg"], dict):
+                o2 = dprog.gen_dop(ctx.rng, with_order2=True)
+            v = sorted(o2["order1"])[0]
+            o2["order2_arg"], o2["order2"], o2["auto"] = [(v, v)], {(v, v): {}}, False
         # like the real operators (T, Phi, E, P, R), keep derivative arrays only for the activated parameters
         for o in (o1, o2):
             act = {p_ for cs in o["order1"].values() for p_ in cs}
@@ -172,15 +202,29 @@ def partial_oracle(ctx, n):
             o["d2arrs"] = {pq: l for pq, l in o["d2arrs"].items() if o["order2"] and pq[0] in act and pq[1] in act}
         aliased = any(isinstance(o["order1_arg"], dict) for o in (o1, o2))
         auto2 = any(o["order2_arg"] is True or isinstance(o["order2_arg"], str) for o in (o1, o2))
-        if o1["kind"] == "matrix" and o2["kind"] == "scalar" or o1["kind"] != o2["kind"]:
-            pass
+        left = "plain" if not o1["order1"] else ("order1" if not o1["order2"] else "order2")
+        right = "plain" if not o2["order1"] else ("order1" if not o2["order2"] else ("auto" if o2["auto"] else "explicit"))
+        carrying = ctx.rng.random() < 0.5
+        # classes in which second-order '@' agrees with sequential application on the pinned tree; every other
+        # class with a second-order declaration is the known finding {"site":"@","why":"order2"}
+        second = (left == "order2") or right in ("auto", "explicit")
+        reliable = (not second) or (left == "plain" and right == "explicit") or (left == "plain" and right == "auto" and not carrying) \
+            or (left == "order1" and right == "explicit" and not carrying)
+        cls = {"left": left, "right": right, "state": "carrying" if carrying else "fresh"}
+
+        def sig(why):
+            if aliased:
+                return {"site": "@", "why": "aliased-declarations"}
+            if not reliable:
+                return {"site": "@", "why": "order2"}
+            return dict({"site": "@", "why": why}, **cls)
         try:
             a, b = dprog.build_dop(o1), dprog.build_dop(o2)
         except ValueError:
             continue
         try:
             sm0 = epg.StateMatrix(density=1.0)
-            pre = dprog.build_dop(dprog.gen_dop(ctx.rng, False))(sm0)      # a state that may already carry partials
+            pre = dprog.build_dop(dprog.gen_dop(ctx.rng, False))(sm0) if carrying else sm0
             seq = b(a(pre))
             try:
                 comb = a @ b
@@ -188,19 +232,20 @@ def partial_oracle(ctx, n):
                 continue   # '@' refuses: outside the property ("whenever '@' accepts")
             one = comb(pre)
         except Exception as e:
-            sig = {"site": "@", "why": "aliased-declarations"} if aliased else {"site": "@", "why": "raises", "auto_order2": auto2}
-            ctx.report("'@' with derivatives raised %s: %s" % (type(e).__name__, str(e)[:160]), {"op1": repr(o1)[:1500], "op2": repr(o2)[:1500]}, found_input=True, signature=sig)
+            ctx.report("'@' with derivatives raised %s: %s" % (type(e).__name__, str(e)[:160]), {"op1": repr(o1)[:1500], "op2": repr(o2)[:1500], "class": cls},
+                       found_input=True, signature=sig("raises"))
             continue
         ctx.cov["oracle_runs"] = ctx.cov.get("oracle_runs", 0) + 1
         s1, s2 = dprog.snap_d(one), dprog.snap_d(seq)
         if s1[0] != s2[0]:
-            ctx.report("'@' changes the state when derivatives are declared", {"op1": repr(o1)[:1500], "op2": repr(o2)[:1500]}, found_input=True, signature={"site": "@", "why": "states"})
+            ctx.report("'@' changes the state when derivatives are declared", {"op1": repr(o1)[:1500], "op2": repr(o2)[:1500], "class": cls}, found_input=True,
+                       signature={"site": "@", "why": "states"})
         elif not same_partials(s1[1], s2[1]):
-            ctx.report("first-order partials of (op1 @ op2)(sm) differ from sequential application", {"op1": repr(o1)[:1500], "op2": repr(o2)[:1500]}, found_input=True,
-                       signature={"site": "@", "why": "aliased-declarations"} if aliased else {"site": "@", "why": "order1"})
+            ctx.report("first-order partials of (op1 @ op2)(sm) differ from sequential application", {"op1": repr(o1)[:1500], "op2": repr(o2)[:1500], "class": cls},
+                       found_input=True, signature=sig("order1"))
         elif not same_partials(s1[2], s2[2]):
-            ctx.report("second-order partials of (op1 @ op2)(sm) differ from sequential application", {"op1": repr(o1)[:1500], "op2": repr(o2)[:1500]}, found_input=True,
-                       signature={"site": "@", "why": "aliased-declarations"} if aliased else {"site": "@", "why": "order2", "auto_order2": auto2})
+            ctx.report("second-order partials of (op1 @ op2)(sm) differ from sequential application", {"op1": repr(o1)[:1500], "op2": repr(o2)[:1500], "class": cls},
+                       found_input=True, signature=sig("order2-reliable-class"))
 
 
 def real_chains(ctx, n):
